@@ -37,6 +37,12 @@ class Clock:
     def __init__(self):
         self.L = _time.time() + 5
 
+    def rebase(self):
+        """every history starts near the real time: thousands of histories with 40-day idle periods would otherwise carry the clock
+        (and the 'future' modification times with it) past what the file system can store (ext4: year 2446), where utime() clamps
+        and modification times stop advancing - a harness artefact that looks like a stale cache"""
+        self.L = _time.time() + 5
+
     def tick(self, d=1.0):
         self.L = max(self.L + d, _time.time() + 1)
         return self.L
@@ -92,6 +98,7 @@ class World:
         # (exactly 0.0 = the epoch, as left by archives and reproducible builds; far in the future = a skewed clock)
         self.timelines = timelines if timelines is not None else [rng.choice(['clock', 'clock', 'clock', 'epoch', 'future']) for _ in self.files]
         self.last_mtime = {}
+        self.unreliable = False
 
     def next_mtime(self, f):
         mode = self.timelines[self.files.index(f)]
@@ -112,6 +119,8 @@ class World:
         f.write_text(s, encoding='utf-8')
         t = self.next_mtime(f)
         os.utime(f, (t, t))
+        if os.path.getmtime(f) != t:
+            self.unreliable = True          # the file system did not store the time we asked for: nothing about this history is judged
         self.cur[f] = s
 
     def stamp_cache(self):
@@ -135,19 +144,27 @@ OPS = ['write', 'write', 'parse', 'parse', 'parse', 'parse_diff', 'parse_nocache
        'parse_code', 'fill', 'inflight', 'inflight']
 
 
-def run_history(ctx, rng, ops=None, inject=None, timelines=None):
+def run_history(ctx, rng, ops=None, inject=None, timelines=None, initial=None):
     """ops: list of (op, file index, version, cache dir index, content or None) to replay; else random"""
     import parso
     import parso.cache as C
     from parso.file_io import FileIO
     clk = _state['clk']
+    clk.rebase()
     w = World(rng, clk, timelines if timelines is not None else (None if ops is None else ['clock'] * 3))
     log = []
+
+    def viol(*a, **k):
+        if w.unreliable:
+            ctx.count('fs_did_not_store_a_modification_time_not_judged')
+            return
+        ctx.violation(*a, **k)
     hit_after_write = False
     wrote = set()
     try:
-        for f in w.files:
-            w.write(f, w.content() if ops is None else '')
+        initial = initial if initial is not None else [w.content() if ops is None else '' for _ in w.files]
+        for f, c0 in zip(w.files, initial):
+            w.write(f, c0)
         C.parser_cache.clear()
         n = rng.randint(3, 14) if ops is None else len(ops)
         for step in range(n):
@@ -160,7 +177,7 @@ def run_history(ctx, rng, ops=None, inject=None, timelines=None):
             f, cd = w.files[fi], w.cds[ci]
             g = parso.load_grammar(version=v)
             log.append([op, fi, v, ci, new])
-            wit = {'ops': list(log), 'timelines': list(w.timelines)}
+            wit = {'ops': list(log), 'timelines': list(w.timelines), 'initial': list(initial)}
             clk.tick()
             _state['hit'] = False
             m = None
@@ -172,6 +189,8 @@ def run_history(ctx, rng, ops=None, inject=None, timelines=None):
                 if op == 'touch':
                     t = w.next_mtime(f)
                     os.utime(f, (t, t))
+                    if os.path.getmtime(f) != t:
+                        w.unreliable = True
                     continue
                 if op == 'newproc':
                     C.parser_cache.clear()
@@ -204,7 +223,7 @@ def run_history(ctx, rng, ops=None, inject=None, timelines=None):
                             ctx.count('op:parse_after_eviction')
                             dd = sig_diff(tree_sig(mm), tree_sig(gg.parse(w.cur[f])))
                             if dd:
-                                ctx.violation('stale_or_foreign_tree', 'after the memory-cache eviction, grammar %s on file %d: tree differs from a fresh parse: %s' % (vv, fi, dd),
+                                viol('stale_or_foreign_tree', 'after the memory-cache eviction, grammar %s on file %d: tree differs from a fresh parse: %s' % (vv, fi, dd),
                                               wit, op='parse_after_eviction', served_from_cache=bool(_state['hit']))
                                 return
                     continue
@@ -235,14 +254,14 @@ def run_history(ctx, rng, ops=None, inject=None, timelines=None):
                     ctx.count('inflight_writes')
                     s = tree_sig(m)
                     if s != tree_sig(g.parse(old)) and s != tree_sig(g.parse(w.cur[f])):
-                        ctx.violation('inflight_result', 'the in-flight call returned neither the old nor the new tree', wit)
+                        viol('inflight_result', 'the in-flight call returned neither the old nor the new tree', wit)
                         return
                     continue
             except RecursionError:
                 return
             except Exception as e:
                 info = harness.exc_info(e)
-                ctx.violation('parse_raised', 'op %s raised %s: %s in %s: %s' % (op, info['type'], info['text'][:80], info['func'], info['line']),
+                viol('parse_raised', 'op %s raised %s: %s in %s: %s' % (op, info['type'], info['text'][:80], info['func'], info['line']),
                               wit, exc=info, op=op)
                 return
             w.stamp_cache()
@@ -254,7 +273,7 @@ def run_history(ctx, rng, ops=None, inject=None, timelines=None):
             d = sig_diff(tree_sig(m), tree_sig(ref))
             if d:
                 prev_inflight = [k for k, o in enumerate(log[:-1]) if o[0] == 'inflight' and o[1] == fi]
-                ctx.violation('stale_or_foreign_tree', 'op %s on file %d (grammar %s, cache dir %d): tree differs from a fresh parse of the current '
+                viol('stale_or_foreign_tree', 'op %s on file %d (grammar %s, cache dir %d): tree differs from a fresh parse of the current '
                               'content: %s' % (op, fi, v, ci, d), wit, op=op, served_from_cache=bool(_state['hit']),
                               inflight_write_on_this_file_before=bool(prev_inflight), ops_since_inflight=(len(log) - 1 - prev_inflight[-1]) if prev_inflight else None)
                 return
@@ -346,7 +365,7 @@ def run_shard(spec, ctx):
 
 def replay(w, ctx):
     _install(ctx)
-    run_history(ctx, random.Random(0), ops=[list(o) for o in w['ops']], timelines=w.get('timelines'))
+    run_history(ctx, random.Random(0), ops=[list(o) for o in w['ops']], timelines=w.get('timelines'), initial=w.get('initial'))
 
 
 def shards(tier, seed):
